@@ -179,6 +179,16 @@ func TestC18(t *testing.T) {
 			vp := &pwr.ValidatingPool{Pool: inner, Container: si.Container, Signature: si}
 			a, b := int64(0), int64(1)
 			da, db := tree[si.Container.Files[a].Path].Data, tree[si.Container.Files[b].Path].Data
+			if rapid.Bool().Draw(rt, "closetwicefirst") {
+				// an earlier writer that is closed twice (deferred Close plus explicit Close)
+				w0, e0 := vp.GetWriter(a)
+				if e0 == nil {
+					w0.Write(tree[si.Container.Files[a].Path].Data)
+					w0.Close()
+					w0.Close()
+					inner.Got[a] = nil
+				}
+			}
 			wa, ea := vp.GetWriter(a)
 			wb, eb := vp.GetWriter(b)
 			if ea != nil || eb != nil {
